@@ -407,6 +407,11 @@ class Extractor:
             parts = f.rel[:-3].split("/")
             self.modules.setdefault(f.crate, set()).update(p for p in parts if p not in ("mod", "lib"))
         self.enums = parse_enums(self.files)
+        self.sensitive_records = self.find_sensitive_records()
+        self.fn_rets = {}
+        for f in self.files:
+            for fn in f.fns:
+                self.fn_rets.setdefault(fn[0], set()).add(fn[5])
         self.type_names = set()
         for f in self.files:
             self.type_names |= set(re.findall(r"\b(?:struct|enum|trait|type)\s+(\w+)", f.mask))
@@ -490,6 +495,41 @@ class Extractor:
             parts.append(cur)
         return parts
 
+    def find_sensitive_records(self):
+        """structs / enums of the four crates whose derived Debug output contains a group id or secret: they derive Debug
+        (no hand-written impl), and some field's type is GroupId / Secret / EncryptionConfig or another such record (fixpoint)"""
+        manual, decls = set(), {}
+        for f in self.files:
+            manual |= set(re.findall(r"\bimpl(?:\s*<[^>]*>)?\s+(?:std::|core::)?(?:fmt::)?Debug\s+for\s+(\w+)", f.mask))
+            for m in re.finditer(r"#\[derive\(([^\]]*)\)\]", f.mask):
+                if not re.search(r"\bDebug\b", m.group(1)):
+                    continue
+                md = re.match(r"(?:\s*#\[[^\]]*\])*\s*pub(?:\([^)]*\))?\s+(?:struct|enum)\s+(\w+)[^{;(]*\{", f.mask[m.end():])
+                if not md:
+                    continue
+                o = m.end() + md.end() - 1
+                c = match_close(f.mask, o)
+                decls[md.group(1)] = f.mask[o + 1:c]
+        base = re.compile(r"\b(GroupId|Secret|EncryptionConfig)\b")
+        sens = {n for n, body in decls.items() if n not in manual and base.search(body)}
+        changed = True
+        while changed:
+            changed = False
+            for n, body in decls.items():
+                if n in sens or n in manual:
+                    continue
+                if any(re.search(r"\b%s\b" % re.escape(x), body) for x in sens):
+                    sens.add(n); changed = True
+        return sens
+
+    def ret_class(self, f, callee):
+        """class of the value a call to `callee` yields, from the declared return types of every function of that name"""
+        for ret in self.fn_rets.get(callee, ()):
+            names = set(re.findall(r"\b[A-Z]\w+\b", ret))
+            if names & self.sensitive_records or re.search(r"\b(GroupId|Secret)\b", ret):
+                return "Sensitive"
+        return None
+
     def type_class(self, f, ty):
         """class of a value from its declared type (error-enum fields, fn parameters)"""
         t = ty.strip()
@@ -503,6 +543,12 @@ class Extractor:
         if re.search(r"\bGroupId\b", t):
             return "Sensitive"
         if re.search(r"\bSecret\b|\bEncryptionConfig\b", t):
+            return "Sensitive"
+        mrec = re.match(r"^(?:\w+::)*(\w+)\b", t)
+        if mrec and mrec.group(1) in self.sensitive_records:
+            return "Sensitive"            # a record whose derived Debug output contains a group id / secret
+        mv = re.match(r"^(?:Vec|BTreeSet|HashSet|VecDeque)\s*<(.*)>$", t) or re.match(r"^\[(.*)\]$", t)
+        if mv and self.type_class(f, mv.group(1)) == "Sensitive":
             return "Sensitive"
         q = self.enum_by_short(f, t) if re.search(r"Error\b", t) else None
         if q:
@@ -651,6 +697,10 @@ class Extractor:
         for m in re.finditer(r"\bfor\s+(?:\([^)]*\b%s\b[^)]*\)|%s)\s+in\b" % (re.escape(ident), re.escape(ident)), body):
             if best is None or m.start() > best[0]:
                 best = (m.start(), "for", None)
+        # a pattern binding `Some(x)` / `Ok(x)` / `Ok(Some(x))`: the value comes out of the call that is matched on
+        for m in re.finditer(r"\b(?:Ok\s*\(\s*)?(?:Some|Ok)\s*\(\s*(?:ref\s+|mut\s+)?%s\s*\)\s*\)?\s*(=>|=(?!=))" % re.escape(ident), body):
+            if best is None or m.start() > best[0]:
+                best = (m.start(), "pat", (m.group(1), m.end()))
         if best is None:
             mp = re.search(r"(?:^|,)\s*(?:mut\s+)?%s\s*:\s*([^,]+(?:<[^>]*>)?[^,]*)" % re.escape(ident), params)
             if mp:
@@ -662,6 +712,33 @@ class Extractor:
         abs_at = b0 + at
         if kind == "let" and extra and self.type_class(f, extra) is not None:
             return [(ident, self.type_class(f, extra))]
+        if kind == "pat":
+            arrow, end = extra
+            if arrow == "=>":
+                # scrutinee: the `match <expr> {` that encloses the arm
+                pre = f.mask[b0:abs_at]
+                mm = None
+                for mm in re.finditer(r"\bmatch\b", pre):
+                    pass
+                scrut = pre[mm.end():] if mm else ""
+                scrut = scrut[:scrut.find("{")] if "{" in scrut else scrut
+            else:
+                k = b0 + end
+                k0 = k
+                while k < len(f.mask) and f.mask[k] not in "{;":
+                    if f.mask[k] in "([":
+                        k = match_close(f.mask, k)
+                    k += 1
+                scrut = f.mask[k0:k]
+            calls = re.findall(r"(\w+)\s*\(", self.head_of(scrut))
+            for callee in reversed(calls):
+                if callee in ("map_err", "ok_or", "ok_or_else", "map", "and_then", "Some", "Ok", "Err", "to_string", "unwrap_or_default"):
+                    continue
+                rc = self.ret_class(f, callee)
+                if rc:
+                    return [(ident + " <- " + callee + "(..)", rc)]
+                break
+            return None
         if kind == "let":
             # rhs up to the terminating ';' at depth 0
             k = abs_at
@@ -682,6 +759,10 @@ class Extractor:
                     c = match_close(f.mask, o)
                     res += self.classify_format_text(f, o, f.text[o + 1:c], depth + 1, mask=f.mask[o + 1:c], base=o + 1)
                 return res or None
+            # a call whose declared return type is a record that prints ids / secrets
+            calls = [c for c in re.findall(r"(\w+)\s*\(", self.head_of(rhs_mask)) if c not in ("map_err", "ok_or", "ok_or_else", "map", "and_then", "Some", "Ok", "Err", "to_string", "unwrap_or_default")]
+            if calls and self.ret_class(f, calls[-1]) and not re.search(r"\)\s*\??\s*\.\s*\w+\s*$", norm_ws(rhs_mask)):
+                return [(ident + " <- " + calls[-1] + "(..)", self.ret_class(f, calls[-1]))]
             # other right-hand sides: classify the expression text itself (names decide)
             r = self.classify(f, abs_at, rhs, depth + 1)
             return [(ident + " := " + norm_ws(rhs)[:60], c) for _x, c in r] if r else []
